@@ -102,6 +102,26 @@ fn selector_depth(expression: &str) -> usize {
     max_depth
 }
 
+// Matching a selector recurses once per combinator (`a b`, `a > b`, `a + b`, `a ~ b`): thousands of them overflow the stack
+const MAX_SELECTOR_COMBINATORS: usize = 128;
+
+fn selector_combinators(expression: &str) -> usize {
+    let mut combinators = 0;
+    let mut in_combinator = false;
+
+    for char in expression.chars() {
+        let is_combinator = char.is_whitespace() || matches!(char, '>' | '+' | '~');
+
+        if is_combinator && !in_combinator {
+            combinators += 1;
+        }
+
+        in_combinator = is_combinator;
+    }
+
+    combinators
+}
+
 /// Name of the element a fragment has to be parsed in for the start tag of its first element to be kept
 fn fragment_context(data: &str) -> &'static str {
     let name = data.trim_start().strip_prefix('<').unwrap_or_default();
@@ -120,6 +140,12 @@ fn fragment_context(data: &str) -> &'static str {
 pub fn evaluate(data: &str, expression: &str) -> bool {
     if selector_depth(expression) > MAX_SELECTOR_DEPTH {
         log::error!("cannot parse selector {}: too many nested parentheses", expression);
+
+        return false;
+    }
+
+    if selector_combinators(expression) > MAX_SELECTOR_COMBINATORS {
+        log::error!("cannot use selector {}: too many combinators", expression);
 
         return false;
     }
